@@ -58,6 +58,22 @@ type SDeep struct {
 	X   string `json:"x"`
 }
 
+// self-referential shapes: a list node and a parent / child pair, linked through pointer fields
+type SNode struct {
+	V    int64  `json:"v"`
+	Next *SNode `json:"next"`
+}
+
+type SParent struct {
+	Name  string  `json:"name"`
+	Child *SChild `json:"child"`
+}
+
+type SChild struct {
+	N    int64    `json:"n"`
+	Back *SParent `json:"back"`
+}
+
 // Shape describes one struct type of the menu.
 type Shape struct {
 	Name string
@@ -86,7 +102,8 @@ var Shapes = map[string]Shape{}
 
 func init() {
 	for _, s := range []Shape{shapeOf[SA]("SA"), shapeOf[SP]("SP"), shapeOf[SN]("SN"), shapeOf[SNest]("SNest"),
-		shapeOf[SColl]("SColl"), shapeOf[STag]("STag"), shapeOf[SEmpty]("SEmpty"), shapeOf[SMid]("SMid"), shapeOf[SDeep]("SDeep")} {
+		shapeOf[SColl]("SColl"), shapeOf[STag]("STag"), shapeOf[SEmpty]("SEmpty"), shapeOf[SMid]("SMid"), shapeOf[SDeep]("SDeep"),
+		shapeOf[SNode]("SNode"), shapeOf[SParent]("SParent"), shapeOf[SChild]("SChild")} {
 		Shapes[s.Name] = s
 		p := s
 		p.Name = s.Name + "*"
@@ -169,4 +186,28 @@ func DeepShapeSpec() *Spec {
 		{Name: "mid", Type: mid, Default: Str("{\"leaf\": {\"s\": \"d\"}, \"t\": \"x\"}")},
 		{Name: "x", Type: leafStr(), Default: Str("\"dx\"")},
 	}}
+}
+
+// RecursiveShapeSpecs: struct-mapped objects that reach themselves through pointer fields (a list node; a parent /
+// child pair), the child with a default of its own.
+func RecursiveShapeSpecs() []*Spec {
+	ref := func(id string) *Spec { return &Spec{Kind: KRef, RefID: id} }
+	return []*Spec{
+		{Kind: KScope, Root: "Node", Objects: []*Spec{
+			{Kind: KObject, ID: "Node", Struct: "SNode", Props: []Prop{
+				{Name: "v", Type: leafInt(), Required: true},
+				{Name: "next", Type: ref("Node")},
+			}},
+		}},
+		{Kind: KScope, Root: "Parent", Objects: []*Spec{
+			{Kind: KObject, ID: "Parent", Struct: "SParent", Props: []Prop{
+				{Name: "name", Type: leafStr(), Required: true},
+				{Name: "child", Type: ref("Child")},
+			}},
+			{Kind: KObject, ID: "Child", Struct: "SChild", Props: []Prop{
+				{Name: "n", Type: &Spec{Kind: KInt, Min: I64(0), Max: I64(5)}, Default: Str("3")},
+				{Name: "back", Type: ref("Parent")},
+			}},
+		}},
+	}
 }
